@@ -101,6 +101,15 @@ def run_case(case, work, rec):
         sels = [(f"int:{f1}", f1, f1), (f"name:{keys[f1]}", keys[f1], f1), (f"list:{fl}", fl, fl),
                 (f"slice:{a}:{b}:{st}", slice(a, b, st), list(range(nf))[slice(a, b, st)]),
                 ("slice:all", slice(None), list(range(nf)))]
+        # forms the statement does not name but that have a natural reading (numpy index arrays, boolean
+        # masks of fields): iterating may refuse them, or must yield exactly the fields they denote
+        lenient = set()
+        if nf >= 2:
+            k = rng.randint(1, nf - 1)
+            sels += [(f"npmask:sorted{k}", np.arange(nf) >= k, list(range(k, nf))),
+                     (f"listmask:sorted{k}", [i >= k for i in range(nf)], list(range(k, nf))),
+                     (f"nparr:{fl}", np.array(fl), fl)]
+            lenient = {sels[-3][0], sels[-2][0], sels[-1][0]}
         for fd, fsel, comps in sels:
             exp = multiset([m.data[lv][bi][..., comps] for bi in range(nb)])
             if nfl <= 4:
@@ -130,10 +139,16 @@ def run_case(case, work, rec):
                     except StopIteration:
                         extra = False
                 except Exception as e:
+                    if fd in lenient:
+                        rec.count("lenient_forms_refused")
+                        rec.ok(key, False)
+                        continue
                     rec.violation(f"iteration raised {type(e).__name__}: [{fd}][{lv}] schedule {perm}",
                                   witness={"selector": fd, "level": lv, "schedule": list(perm), "exc": repr(e)[:300]}, key=key)
                     continue
                 rec.count("iterations")
+                if fd in lenient:
+                    rec.count("lenient_forms_answered")
                 if list(perm) != sorted(perm):
                     rec.count("schedules_nonidentity")
                 rec.seen("schedules", (nfl, perm))
@@ -166,12 +181,16 @@ def run_case(case, work, rec):
         bsels.append(("mask", np.array(mk), [i for i, v in enumerate(mk) if v]))
         b0 = rng.randrange(nb)
         for bd, bsel, boxes in bsels:
-            for fd, fsel, comps in sels[:3]:
+            for fd, fsel, comps in sels[:3] + [x for x in sels if x[0] in lenient][:1]:
                 pools.CTL.reset(mode="inproc", seed=rng.randrange(10 ** 6))
                 key = (digest, "iter", fd, lv, bd)
                 try:
                     got = list(pck[fsel][lv].iter(bsel))
                 except Exception as e:
+                    if fd in lenient:
+                        rec.count("lenient_forms_refused")
+                        rec.ok(key, False)
+                        continue
                     rec.violation(f".iter raised {type(e).__name__}: [{fd}][{lv}].iter({bd})", key=key,
                                   witness={"exc": repr(e)[:300]})
                     continue
